@@ -274,6 +274,9 @@ def pristine_outcomes(items):
 # Hand-written programs for constructs the grammar-directed generator produces rarely or never, plus the inputs of every
 # defect that was repaired by a "fix:" commit (a fixed defect that returns is reported again).  (text, is_valid_C11)
 ZOO = [
+    # round 8: static assertions with wide / prefixed messages (repaired by 6cdcb92), in every position a static assertion can take
+    ('_Static_assert(1, L"x"); _Static_assert(sizeof(int) == 4, u8"m" u8"n"); void f(void){ _Static_assert(1, U"a"); if (x) _Static_assert(1, u"b"); _Static_assert(2, "p" "q"); }', True),
+    ('int (g(int a)) { return a; } int (*h(int a))(int b) { return 0; }', True),
     # round 7: adjacent prefixed literals of every class, offsetof designators with identifier subscripts, a function's own name
     # re-declared in its outermost block, suffixes after postfix ++, comma in the middle of ?:, member runs with mixed operators
     ('char *a = u8"ab" u8"cd"; char *b = u8"a" u8"b" u8"c"; int *c = L"a" L"b" L"c"; short *d = u"x" u"y"; int *e = U"x" U"y" U"z"; char *f = "p" "q" "r";', True),
